@@ -146,7 +146,8 @@ def run_config(res, pid, tier, seed, config, binp, info, workdir, extra_cases=No
     if cached:
         bs, cases = cached[0], cached[1]
     else:
-        bs = list(extra_cases or []) + g(r, tier, info)
+        corpus = hh.load_corpus(pid, info) if (executor is None and not skip_model and gen_override is None) else []
+        bs = corpus + list(extra_cases or []) + g(r, tier, info)
         cases = [b.case() for b in bs]
     tag = f"{pid}.{label}" + (f".{cpu}" if cpu else "")
     cfgline = info["_line"]
@@ -204,9 +205,9 @@ def evaluate(res, pid, config, cpu, cfgline, bs, cases, reals, models, crashed, 
         # minimise the first failing history on the native runner (greedy op deletion)
         if n_rep == 0 and binp_for_shrink.get(tag) and cases[k].cons:
             try:
-                sh = hh.shrink_oracle_failure(binp_for_shrink[tag][0], cases[k], workdir, extra_args=binp_for_shrink[tag][1])
-                if sh and len(sh[0]) < len(cases[k].ops):
-                    rep["minimised_ops"], rep["minimised_actual"], rep["minimised_message"] = sh
+                sh = hh.shrink_oracle_failure(binp_for_shrink[tag][0], cases[k], workdir, extra_args=binp_for_shrink[tag][1], cfgline=cfgline)
+                if sh:
+                    rep["minimised_ops"], rep["minimised_actual"], rep["minimised_message"], rep["minimised_cons"] = sh
             except Exception as e:      # shrinking is best effort
                 rep["shrink_error"] = str(e)[:200]
         res.replay(rep)
